@@ -64,6 +64,7 @@ SliceDeep(E, vs) == W("len", UsizeT, NE(Len(vs), UsizeBytes), -1) \o WSeq("item"
 
 Inner(T, v, ann) ==
   CASE T.k = "prim" -> <<ORaw(v)>>
+    [] T.k = "hw" -> SerZero(T, v)       \* the hand-written impl calls serialize_zero, as a derived one would
     [] T.k \in {"unit", "rangefull", "phantom"} -> <<>>
     [] T.k \in {"string", "boxstr"} -> SliceZero(U8, [i \in 1..Len(v) |-> <<v[i]>>])
     [] T.k \in {"vec", "boxslice"} ->
